@@ -447,6 +447,23 @@ def annotations_ok(cls: Any, d1: Any, names: Any, ns: dict) -> bool:
     return True
 
 
+def nullability_ok(cls: Any, table: Any, ns: dict, UnsetT: Any) -> bool:
+    """The declared type of every attribute admits None exactly when the document makes the property nullable, and
+    admits Unset exactly when the property may be omitted (C10: 'the declared type admits None exactly when the schema
+    is nullable').  `table` = (python name, nullable, optional, any) per property, computed from the document."""
+    hints = _typing.get_type_hints(cls, globalns=ns, localns=ns)
+    for py, nullable, optional, is_any in table:
+        h = hints[py]
+        if is_any:
+            continue  # an untyped property is annotated Any: it admits everything
+        args = _typing.get_args(h) if _typing.get_origin(h) is _typing.Union else (h,)
+        admits_none = type(None) in args or h is type(None)
+        admits_unset = UnsetT in args
+        if admits_none != bool(nullable) or admits_unset != bool(optional):
+            return False
+    return True
+
+
 def defaults_ok(cls: Any, required_kwargs: dict, expected: Any) -> bool:
     """An instance built with no optional arguments has the declared typed defaults and encodes exactly them."""
     m = cls(**required_kwargs)
